@@ -188,13 +188,31 @@ CLAIMED = {
    design="6/C13", technique="Coq refinement proof of the span copy loop (balance/termination/no-fault + cell-wise effect) on top of the C03 lemmas; exhaustive rectangle-pair differential check; extracted cell-wise spec as oracle"),
 }
 
+# later rounds: additions to the texts above (kept separate so the history of claims stays readable)
+APPEND = {
+ "C03": dict(note=" UPDATE: the width restriction and the 4-attribute pens are lifted - text width is the C07 model's width function over the tables re-translated from the sources (C03_text_valid_is_utf8, C03_text_count_is_utf8 tie the code-point-level text model to C07's byte-level counting) and pens are C19's attribute maps (C03_pen_copy_is_C19, C03_pen_equiv_is_C19); texts are well-formed UTF-8 over code points 1..0x1FFFFF; the generator feeds every table-interval boundary and all ten pen attributes with RGB secondaries."),
+ "C04": dict(note=" UPDATE: width function and pens are now the C07 / C19 models (see C03); the mock terminal's print follows the repaired mtd_print (fix: a97d737, 303b3d3)."),
+ "C13": dict(note=" UPDATE: width function and pens are now the C07 / C19 models (see C03)."),
+ "C01": dict(text=" END TO END: the same flush implemented over the CONCRETE render-buffer model of C03 (span grid), flushed by the C04 flush model onto the C04 terminal, leaves every terminal cell equal to the composition (C01_end_to_end, C01_end_to_end_sim, C01_end_to_end_total), and scroll requests are discharged against the REAL xterm driver's bytes on the VT specification of C09 (C01_scroll_xterm, C01_history_xterm)."),
+ "C02": dict(text=" END TO END over the concrete render buffer and flush models: C02_end_to_end, C02_end_to_end_confined, C02_buffer_is_spec."),
+ "C09": dict(text=" Also: C09_scroll_exact (cell-exact grid shift), C09_oracle_sound, and the COMPOSITION with C04: C04_C09_flush_on_vt - the VT run of the driver's bytes for the flush of any reachable render buffer shows the buffer's cells with their pens' renditions (for printable-ASCII text and index-colour / bold / underline pens)."),
+ "C08": dict(text=" UPDATE: EVENTS are now inside the proved invariant - key, mouse/drag, expose, focus, geomchange handlers making arbitrary re-entrant calls (closing / unreferencing themselves or others), reposition, terminal resize: a faulting run implies the client left the discipline (C08_no_fault_events, C08_dispatch_invariant: refcount = client refs + dispatch-frame refs, frames released innermost first); heap-level twin of bindings.c simulating C16's model (C08_bindings_twin_*); pen/string reference counts of the render buffer = number of holders for every program (C08_refcount_exact_penstack).",
+            note=" UPDATE: further repairs 92040ef..a791942 (references held during every kind of dispatch; destruction not re-entrant). Window DESTROY handlers that make calls are explored under the sanitizers, not modelled; no fuel bound (refuted once events are allowed); the bridge between the oracle's predictive discipline and the trace discipline is proved without frame references and tested with them."),
+ "C12": dict(text=" Also for terminals that ANSWER the start-up probes at any later read (C12_toplevel_reports_nokp).", note=" Further repair d11ff37 (stale probe replies no longer overwrite the shadow)."),
+ "C17": dict(text=" Also: one specification (C17_spec_formulations_agree) and a HEAP-LEVEL twin of the watch lists with Fault on any access to a freed node: C17_heap_safe (no fault, no leak, same log) for every script."),
+ "C18": dict(text=" Also: C18_refines (log equality with the snapshot specification for every script and ppoll outcome stream), callbacks that stop the loop, slot reuse (C18_watched_signals_exact, C18_dispatch_covers), the self-pipe fallback (C18_fallback_*)."),
+ "C20": dict(text=" Also: C20_timed_chunking (fragments separated by gaps below the wait time, any handler time), and the hypotheses discharged for a concrete reference tokenizer (C20_reference_tokenizer, C20_chunking_reference)."),
+}
+
 NA_REASON = "not yet built in this revision: model/proof/correspondence for this property are scheduled (DESIGN.md section 10)"
 
 def main():
     checks = []
     for pid in ALL:
         if pid not in CLAIMED: continue
-        c = CLAIMED[pid]
+        c = dict(CLAIMED[pid])
+        for k, v in APPEND.get(pid, {}).items():
+            c[k] = c[k] + v
         checks.append({
           "property_id": pid,
           "quick_cmd": "./check %s --tier quick" % pid,
